@@ -106,10 +106,10 @@ def model_check(model, tier, invariants, extra, timeout, want_dump=True):
         hists = []
         if dump and os.path.exists(dump):
             seen = set()
-            for s in tlaval.dump_states(dump, want=("hist", "last")):
+            for s in tlaval.dump_states(dump, want=("hist", "last", "sigs")):
                 h = s.get("hist")
                 if h:
-                    hists.append((h, s.get("last")))
+                    hists.append((h, s.get("last"), s.get("sigs")))
         cex = None
         if viol:
             tr = tlaval.error_trace(out, want=("hist",))
@@ -122,13 +122,39 @@ def model_check(model, tier, invariants, extra, timeout, want_dump=True):
 def maximal(hists):
     """Drop histories that are a proper prefix of another one (replaying the longer covers them)."""
     keyed = {}
-    for h, last in hists:
-        keyed[_freeze(h)] = (h, last)
+    for h, last, sigs in hists:
+        keyed[_freeze(h)] = (h, last, sigs)
     prefixes = set()
     for k in keyed:
         if len(k) > 1:
             prefixes.add(k[:-1])
     return [hl for k, hl in keyed.items() if k not in prefixes]
+
+
+def stratified(hs, rng, limit):
+    """Pick behaviours so that every coverage signature of the specification (the sequence of branch
+    signatures TLC recorded in `sigs`, or the outcome when a model has none) is represented:
+    round-robin over the signature classes, rarest classes first."""
+    classes = {}
+    for h, last, sigs in hs:
+        key = _freeze(sigs) if sigs is not None else _freeze((last, tuple(op.get("k") for op in h)))
+        classes.setdefault(key, []).append(h)
+    order = sorted(classes, key=lambda k: (len(classes[k]), repr(k)))
+    for k in order:
+        rng.shuffle(classes[k])
+    out, rnd = [], 0
+    while len(out) < limit:
+        progressed = False
+        for k in order:
+            if rnd < len(classes[k]):
+                out.append(classes[k][rnd])
+                progressed = True
+                if len(out) >= limit:
+                    break
+        if not progressed:
+            break
+        rnd += 1
+    return out, len(classes), sum(1 for k in order if classes[k])
 
 
 def _freeze(v):
@@ -254,7 +280,8 @@ def run_ops(args):
             w.probe([i for i in op["is"] if i <= len(w.convs)], extra)
         else:
             raise KeyError(k)
-    # re-index the per-trace string table into plain lists (merged by the parent)
+    import shutil as _sh
+    _sh.rmtree(os.path.join(os.environ.get("VERIF_TMP", "/verif/out"), f"load-{os.getpid()}"), ignore_errors=True)
     return {"events": w.events, "strs": I.strs}
 
 
